@@ -87,6 +87,39 @@ func c07Feed(c *vf.Case, input []byte, cuts []int, max int, label string) string
 	src := sonic.NewByteBuffer()
 	dst := sonic.NewByteBuffer()
 	codec := websocket.NewFrameCodec(src, dst, max)
+	return c07FeedOn(c, codec, src, input, cuts, max, label)
+}
+
+// c07Abandon: a byte stream is abandoned in the middle of a frame (the decoder has asked for more), the application
+// empties the source buffer and feeds another stream to the same decoder: that stream is judged like any other.
+func c07Abandon(c *vf.Case, r *vf.Rand, max int) {
+	src := sonic.NewByteBuffer()
+	dst := sonic.NewByteBuffer()
+	codec := websocket.NewFrameCodec(src, dst, max)
+	first := wsref.Frame{Fin: true, Opcode: 2, Masked: r.Bool(), Payload: r.Bytes(r.Range(8, min(max, 3000)))}
+	enc := first.Encode()
+	k := r.Range(1, len(enc)-1)
+	_, _ = src.Write(enc[:k])
+	if _, err := codec.Decode(src); !errors.Is(err, sonicerrors.ErrNeedMore) {
+		c.Failf("needmore-where-reference-differs", "abandoned stream: Decode of the first %d of %d bytes of a frame returned %v", k, len(enc), err)
+		return
+	}
+	src.Reset()
+	var input []byte
+	for i := 0; i < r.Range(1, 3); i++ {
+		input = append(input, c07RandomFrame(r, int64(max), false).Encode()...)
+	}
+	var cuts []int
+	for i := 0; i < r.Intn(3); i++ {
+		cuts = append(cuts, r.Intn(len(input)+1))
+	}
+	sortInts(cuts)
+	c.Logf("stream abandoned after %d of %d bytes of a frame, buffer emptied, then %d bytes of another stream cut at %v on the same decoder", k, len(enc), len(input), cuts)
+	c07FeedOn(c, codec, src, input, cuts, max, "stream after an abandoned one")
+	c.Count("streams_fed_after_an_abandoned_one", 1)
+}
+
+func c07FeedOn(c *vf.Case, codec *websocket.FrameCodec, src *sonic.ByteBuffer, input []byte, cuts []int, max int, label string) string {
 	fed, consumed := 0, 0
 	commitAll := c.Rng.Bool()
 	if commitAll {
@@ -196,6 +229,12 @@ func runC07(c *vf.Case) {
 	max := maxes[r.Intn(len(maxes))]
 	if max > 70000 && !r.Chance(1, 8) {
 		max = 1024
+	}
+	if max >= 125 && c.Index%16 == 11 {
+		c07Abandon(c, r, max)
+		if c.Failed() {
+			return
+		}
 	}
 	pool := r.Intn(5)
 	var input []byte
@@ -397,7 +436,7 @@ func init() {
 	register(&vf.Check{
 		ID:        "C07",
 		Technique: "differential runtime monitor: every Decode call compared with an independent RFC 6455 reference parser on exactly the bytes received so far, across whole/every-offset/random/byte-at-a-time splits; canary-poisoned capacity; capacity bound; checkptr build",
-		Rule: "feeds are committed piece by piece or completely up front; a third of the identity round trips reuse a Frame object that carried another payload before, a third use a frame about as large as the free room of the destination buffer (fresh, 4096 bytes reserved, or part-filled); " +
+		Rule: "one case in sixteen first abandons a stream in the middle of a frame (the decoder has asked for more), empties the source buffer and feeds another stream to the same decoder, judged like any other; feeds are committed piece by piece or completely up front; a third of the identity round trips reuse a Frame object that carried another payload before, a third use a frame about as large as the free room of the destination buffer (fresh, 4096 bytes reserved, or part-filled); " +
 			"cases = byte strings from four pools (wsref-encoded valid frames over FIN/RSV/opcode 0-15/mask x lengths {0,1,125,126,127,300,65535,65536,max,max+1} in shortest and non-shortest encodings, 1-5 concatenated; one header bit flipped; hostile 64-bit declared lengths {2^31,2^32,2^62,2^63-1,2^63,2^63+5,2^64-14,2^64-1,max+1}; random bytes) x maxMessageSize in {0,125,1024,70000,default}, each fed whole, split at every offset of the first 64 bytes, at random offsets and byte-at-a-time, plus Encode->Decode round trips through the library's Frame API; " +
 			"every case is non-trivial (hostile input is the point); distinct = (pool, first header byte, max, outcome shape, split class)",
 		Assumptions: []string{
